@@ -1191,7 +1191,8 @@ def r_retry(ctx) -> RuleResult:
             why = f"no test comparing {m}.edges with {var}.edges guards the return"
         elif reach:
             p = nx.shortest_path(g, cfg.ENTRY, rn)
-            on_path = [t_ for t_ in unevaluated_tests if cfg.node_of(t_) in p]
+            # only a test that asks about the argument molecule can be the enforce test in a form this rule does not evaluate
+            on_path = [t_ for t_ in unevaluated_tests if cfg.node_of(t_) in p and m in {x_.id for x_ in ast.walk(t_.test) if isinstance(x_, ast.Name)}]
             if on_path:
                 raise AnalysisError(f"R-RETRY: the test `{short(on_path[0].test, 60)}` lies on the way to the return without the changed-bond-set test; what it asks about the molecule "
                                     "(at least two bonds and not complete?) is not evaluated")
